@@ -5,6 +5,7 @@ CONSTANTS
   Reenters = {0}
   Lockeds = {FALSE}
   Timeouts = TRUE
+  CbThrows = {FALSE}
   ClearOutsideLock = TRUE
   SoleOwnerOnly = TRUE
 
